@@ -33,6 +33,7 @@ type Config struct {
 	DumpMs        int
 	Seed          int
 	PanicsEverywhere bool
+	BudgetS       int
 }
 
 var gCfg = Config{Repo: "/repo", Module: "github.com/ah-naf/borno", Verif: "/verif", Z3: "z3", QueryTimeoutS: 60, ModelsPerSite: 2, MaxCallDepth: 400, Workers: runtime.NumCPU(), PanicsEverywhere: true}
@@ -220,6 +221,7 @@ func main() {
 	fs.IntVar(&gCfg.DumpMs, "dumpms", 2000, "dump queries slower than this")
 	fs.IntVar(&gCfg.QueryTimeoutS, "qtimeout", gCfg.QueryTimeoutS, "per-query timeout (s)")
 	fs.IntVar(&gCfg.Seed, "seed", 0, "seed")
+	fs.IntVar(&gCfg.BudgetS, "budget", 0, "exploration time budget in seconds (0: 1200 quick, 10800 thorough)")
 	pkg := fs.String("pkg", "", "package (run)")
 	fn := fs.String("func", "", "harness function (run)")
 	argsS := fs.String("args", "", "comma separated integer arguments (run)")
